@@ -98,6 +98,15 @@ def Vacuum.new (alt : α) (temp : Option α) : Except AtmoErr (Atmo α) :=
   | .error e => .error e
   | .ok a => .ok { a with pressRaw := 0.0, densityRatio := 0.0 }
 
+/-- the `humidity` setter on an existing atmosphere: range check, percent → fraction, then
+    `update_density_ratio()` — which `Vacuum` overrides with a no-op (`vacuum = true`) -/
+def Atmo.setHumidity (a : Atmo α) (vacuum : Bool) (h : α) : Except AtmoErr (Atmo α) :=
+  match normHumidity h with
+  | .error e => .error e
+  | .ok hn =>
+    if vacuum then .ok { a with humidity := hn }
+    else .ok { a with humidity := hn, densityRatio := airDensity a.t0 a.p0 hn / cStandardDensityMetric }
+
 /-- `temperature_at_altitude` (°C), floored at `cLowestTempC` -/
 def Atmo.temperatureAt (a : Atmo α) (altFt : α) : α :=
   let t := (altFt - a.a0) * cLapseRateKperFoot + a.t0
